@@ -72,7 +72,7 @@ func replay(args []string) {
 	out := vh.NewOut(args[1])
 	defer out.Close()
 	st := newStats()
-	wd := vh.NewWatchdog(60*time.Second, out, vh.M{"engine": "alias"})
+	wd := vh.NewWatchdog(300*time.Second, out, vh.M{"engine": "alias"})
 	err := vh.EachLine(args[0], func(line []byte) error {
 		line = bytes.TrimSpace(line)
 		var head struct {
